@@ -221,11 +221,21 @@ hs_parens = (Suppress(Literal("(")) + hs_filter + Suppress(Literal(")"))).setPar
     lambda toks: toks[0]
 )
 hs_term = hs_parens | hs_missing | hs_cmp | hs_has
+
+
+def _fold_binary(op, toks):
+    # toks is [operand, op, operand, op, operand...]: left-associative
+    node = toks[0]
+    for operand in toks[2::2]:
+        node = FilterBinary(op, node, operand)
+    return node
+
+
 hs_condAnd = (hs_term + ZeroOrMore(Literal("and") + hs_term)).setParseAction(
-    lambda toks: FilterBinary("and", toks[0], toks[2]) if len(toks) > 1 else toks[0]
+    lambda toks: _fold_binary("and", toks)
 )
 hs_condOr = (hs_condAnd + ZeroOrMore(Literal("or") + hs_condAnd)).setParseAction(
-    lambda toks: FilterBinary("or", toks[0], toks[2]) if len(toks) > 1 else toks[0]
+    lambda toks: _fold_binary("or", toks)
 )
 hs_filter <<= hs_condOr
 
